@@ -13,7 +13,7 @@ from simkit.core import HarnessError
 
 PROP = "C16"
 LEVEL = "exploration"
-TIERS = {"quick": dict(runs=2400, wall=900, chunk=40), "thorough": dict(runs=400000, wall=5400, chunk=200)}
+TIERS = {"quick": dict(runs=2400, wall=1400, chunk=40), "thorough": dict(runs=400000, wall=5400, chunk=200)}
 TIME_UNIT = "operations (Analysis.add / query / create_xref calls) -- no clock in the code under test"
 RULE = ("one evaluation = one seeded class model, one partition of its classes into 1..4 DEX files and every add order "
         "(all permutations for k<=3, a seeded sample for k=4), each with interleaved read-only queries, compared tuple by "
